@@ -93,6 +93,13 @@ def trim_set(ctx, P):
                     chars.add(int(m.group(1)))
     ctx.check(P + ':S16-1:trim-set', 'R-table', 'the characters trimmed from line ends of the signed form are exactly {SP, TAB} (RFC 9580 §7.2)',
               bool(tr) and not other and chars == {32, 9}, function=b.path, table=sorted(chars), missing='trim_end()/trim() strips all Unicode whitespace' if other else None)
+    # trimming can expose a CR (content) directly in front of a bare LF line end; the pair must not be read as one CR LF break:
+    # either the function tests the trimmed content for a trailing CR, or the line end it appends is the constant CR LF
+    cr_test = [i for i, t in b.calls(r'str::<impl str>::ends_with$|str::ends_with$')
+               if has_origin(b.operand_origins(t['args'][0]), r'call:.*trim_end_matches$') and any(has_origin(b.operand_origins(a), r'const:13:char$') for a in t['args'][1:])]
+    ctx.check(P + ':S16-1:trimmed-cr-kept-as-content', 'R-dom', 'a CR that trimming leaves at the end of a line is kept as content: the trimmed line is tested for a trailing CR before a bare LF line end is appended',
+              bool(cr_test), function=b.path, sites=[site(b, i) for i in cr_test],
+              missing=None if cr_test else '"a\\r\\t\\n" is trimmed to "a\\r\\n" and then read as a single CR LF break: same signed form as "a\\n"')
     # unescape strips exactly the "- " prefix
     sp = b.calls(r'strip_prefix')
     ctx.check(P + ':S16-1:unescape-prefix', 'R-table', 'dash-unescaping strips a "- " prefix', bool(sp), function=b.path)
